@@ -15,13 +15,16 @@ SETS = ('red', ['bold', '[38;5;9'], ['red', 'blue', '[99'], 'bold')
 ARGS = ('', 'a', 'b', ' ', 'ab')
 
 
-def receiver(ti, si, ri):
+SETS_M = (SETS[0], SETS[2])        # method / range families: plain red, and stacked conflicting + unknown verbatim
+
+
+def receiver(ti, si, ri, sets=SETS_M):
     t = choose(ti, TEXTS)
     if t is None:
         return None
     s = AnsiString(t)
     if t:
-        st = choose(si, SETS)
+        st = choose(si, sets)
         if st is None:
             return None
         rs = ranges(len(t))
@@ -371,7 +374,7 @@ def h_introspect(dummy: bool):
 
 def h_ctor(src: int, ti: int, si: int, ri: int, k: int):
     """Constructor: source str / AnsiString / AnsiStr x settings none / one / two."""
-    s = receiver(ti, si, ri)
+    s = receiver(ti, si, ri, SETS)
     if s is None:
         return None
     sk = pick(src, 0, 2)
@@ -419,7 +422,7 @@ def h_ctor(src: int, ti: int, si: int, ri: int, k: int):
 
 
 BOUNDS = {
-    'quick': 'receivers: 4 texts x 4 settings lists (incl. stacked conflicting + unknown verbatim) on 4 ranges (first char, whole, last char, inner); range methods with ALL integer bounds / None; index methods with ALL integers; '
+    'quick': 'receivers: 4 texts x 2 settings lists (red; stacked conflicting + unknown verbatim; constructor forms: 4 lists) on 4 ranges (first char, whole, last char, inner); range methods with ALL integer bounds / None; index methods with ALL integers; '
              'all other shared methods (by introspection) with arguments from a 5-string palette and integers -1..3; constructor: 3 source kinds x 4 settings lists',
     'thorough': 'same (the product is exhausted in quick); thorough adds nothing but the larger budgets',
 }
@@ -432,13 +435,13 @@ def obligations(tier):
     obs = [selftest_ob()]
     obs.append(Ob('introspect', h_introspect, {}, need=('all-shared-methods-covered',), budget=60, bounds='dir(AnsiStr) & dir(AnsiString)', kinds=KINDS))
     for m in range(5):
-        for ti in (0, 1, 2, 3):
+        for ti in (0, 1, 2):
             if ti == 2:
                 obs.append(Ob('range/m%d/t2' % m, h_range, dict(m=m, ti=2, si=0, ri=0), need=('range-method',), budget=1500, bounds='empty text', kinds=KINDS))
                 continue
-            for si in range(len(SETS)):
+            for si in range(len(SETS_M)):
                 obs.append(Ob('range/m%d/t%d/s%d' % (m, ti, si), h_range, dict(m=m, ti=ti, si=si), need=('range-method',), budget=1500,
-                              bounds='text %r, receiver settings %r' % (TEXTS[ti], SETS[si]), kinds=KINDS))
+                              bounds='text %r, receiver settings %r' % (TEXTS[ti], SETS_M[si]), kinds=KINDS))
     for m in range(3):
         obs.append(Ob('index/m%d' % m, h_index, dict(m=m), need=('index-method',), budget=900, bounds='5 texts', kinds=KINDS))
     for m, nm in enumerate(SIMPLE_NAMES):
